@@ -312,9 +312,9 @@ def file_format_from_path(path) -> Optional[str]:
         if name.endswith(extension):
             name = name[: -len(extension)]
             break
-    if name.endswith((".fasta", ".fa", ".fna")):
+    if name.endswith((".fasta", ".fa", ".fna", ".csfasta", ".csfa")):
         return "fasta"
-    if name.endswith((".fastq", ".fq")):
+    if name.endswith((".fastq", ".fq", "_sequence.txt")):
         return "fastq"
     return None
 
